@@ -683,6 +683,11 @@ def run_special(args):
     return res
 
 
+def _call_task(t):
+    fn, a = t
+    return fn(a)
+
+
 def run_bounded(ctx):
     fp = import_fastparquet()
     ctx.bounded_group(G_ROWS, rule=(
@@ -718,15 +723,17 @@ def run_bounded(ctx):
         for n in DATASETS + ["foreign:" + f for f in FOREIGN]:
             tasks.append((run_masks, (root, n, ctx.tier, None, ctx.seed)))
         tasks.append((run_special, (root, ctx.tier, ctx.seed)))
-        with cf.ProcessPoolExecutor(max_workers=min(16, os.cpu_count() or 4)) as ex:
-            futs = [ex.submit(fn, a) for fn, a in tasks]
-            results = [f.result() for f in futs]
+        from runtime.harness import robust_map, WorkerDied
+        results = robust_map(_call_task, tasks, min(16, os.cpu_count() or 4))
+        for k, r in enumerate(results):
+            if isinstance(r, WorkerDied):      # the real library killed the process: a failing case, not a checker crash
+                results[k] = [(G_ROWS, {"ds": str(tasks[k][1][1]), "kind": "process died", "task": tasks[k][0].__name__}, False, r.what(), True, None)]
     contracts = {G_ROWS: CONTRACT_ROWS, G_MASK: CONTRACT_MASK, G_NULL: CONTRACT_ROWS + " [strict: null never satisfies != / not in]",
                  G_PLUMB: CONTRACT_MASK}
     for res in results:
         for group, feats, ok, what, nontrivial, rp in res:
             snip = None
-            if not ok:
+            if not ok and rp is not None:
                 snip = _snippet_rows(rp[1], rp[2], rp[3], rp[4]) if rp[0] == "rows" else _snippet_mask(rp[1], rp[2], rp[3], rp[4], rp[5])
             with Case(ctx, group, feats, snippet=snip, nontrivial=nontrivial, contract=contracts[group]) as c:
                 if not ok:
